@@ -513,68 +513,86 @@ pub fn follow_tags<Q: Queue>(q: &Q, model: &mut Model, ok: impl Fn(u32, u32) -> 
     }
 }
 
+impl<'c, Q: Queue> Interp<'c, Q> {
+    /// construct the queue and the model and run the first observation
+    pub fn start(case: &'c Case, cfg: &'c RunCfg, want_trace: bool) -> (Self, Option<Outcome>) {
+        CUR_STEP.with(|c| c.set((-1, "ctor")));
+        let mut fails = Vec::new();
+        let (q, model) = construct::<Q>(case, &mut fails);
+        let mut it = Interp {
+            q,
+            model,
+            case,
+            cfg,
+            stats: Stats::default(),
+            step: -1,
+            opname: "ctor",
+            order_on: true,
+            fails,
+            removed: Default::default(),
+            disturbed: false,
+            after_special: false,
+            force_drain: true,
+            trace: if want_trace { Some(Vec::new()) } else { None },
+        };
+        it.stats.hit(match case.ctor.how {
+            CtorKind::FromVec => "ctor_from_vec",
+            CtorKind::FromIter => "ctor_from_iter",
+            CtorKind::FromOther => "ctor_from_other",
+            CtorKind::Deserialize => "ctor_deserialize",
+            _ => "ctor_empty_push",
+        });
+        it.check_state();
+        let o = it.finish_step();
+        (it, o)
+    }
+
+    /// run one operation followed by the full observation
+    pub fn step_op(&mut self, i: usize, op: &Op) -> Option<Outcome> {
+        self.step = i as i32;
+        self.opname = op.name();
+        CUR_STEP.with(|c| c.set((i as i32, self.opname)));
+        self.stats.steps += 1;
+        self.stats.hit(op_ev(self.opname));
+        if self.after_special {
+            self.stats.hit("after_special_ops");
+            if matches!(op, Op::Pop { .. } | Op::PopIf { ans: true, .. }) && !self.model.is_empty() {
+                self.stats.hit("after_special_extract");
+            }
+        }
+        self.apply(op);
+        crate::runner::AFTER_SPECIAL.with(|a| a.set(self.after_special));
+        self.check_state();
+        self.finish_step()
+    }
+
+    pub fn size_events(&mut self) {
+        if self.stats.max_size >= 4 {
+            self.stats.hit("size_ge4");
+        }
+        if self.stats.max_size >= 16 {
+            self.stats.hit("size_ge16");
+        }
+        if self.stats.max_size >= 64 {
+            self.stats.hit("size_ge64");
+        }
+    }
+}
+
 pub fn run_case<Q: Queue>(case: &Case, cfg: &RunCfg, stats: &mut Stats, want_trace: bool) -> (Outcome, Option<Vec<TraceEv>>) {
-    CUR_STEP.with(|c| c.set((-1, "ctor")));
-    let mut fails = Vec::new();
-    let (q, model) = construct::<Q>(case, &mut fails);
-    let mut it = Interp {
-        q,
-        model,
-        case,
-        cfg,
-        stats: Stats::default(),
-        step: -1,
-        opname: "ctor",
-        order_on: true,
-        fails,
-        removed: Default::default(),
-        disturbed: false,
-        after_special: false,
-        force_drain: true,
-        trace: if want_trace { Some(Vec::new()) } else { None },
-    };
-    it.stats.hit(match case.ctor.how {
-        CtorKind::FromVec => "ctor_from_vec",
-        CtorKind::FromIter => "ctor_from_iter",
-        CtorKind::FromOther => "ctor_from_other",
-        CtorKind::Deserialize => "ctor_deserialize",
-        _ => "ctor_empty_push",
-    });
-    it.check_state();
+    let (mut it, early) = Interp::<Q>::start(case, cfg, want_trace);
     let mut outcome = Outcome::Pass;
-    if let Some(o) = it.finish_step() {
+    if let Some(o) = early {
         outcome = o;
     } else {
         for (i, op) in case.ops.iter().enumerate() {
-            it.step = i as i32;
-            it.opname = op.name();
-            CUR_STEP.with(|c| c.set((i as i32, it.opname)));
-            it.stats.steps += 1;
-            it.stats.hit(op_ev(it.opname));
-            if it.after_special {
-                it.stats.hit("after_special_ops");
-                if matches!(op, Op::Pop { .. } | Op::PopIf { ans: true, .. }) && !it.model.is_empty() {
-                    it.stats.hit("after_special_extract");
-                }
-            }
-            it.apply(op);
-            crate::runner::AFTER_SPECIAL.with(|a| a.set(it.after_special));
-            it.check_state();
-            if let Some(o) = it.finish_step() {
+            if let Some(o) = it.step_op(i, op) {
                 outcome = o;
                 break;
             }
         }
     }
-    if it.model.len() >= 4 || it.stats.max_size >= 4 {
-        it.stats.hit("size_ge4");
-    }
-    if it.stats.max_size >= 16 {
-        it.stats.hit("size_ge16");
-    }
-    if it.stats.max_size >= 64 {
-        it.stats.hit("size_ge64");
-    }
+    it.size_events();
     let tr = it.trace.take();
     *stats = std::mem::take(&mut it.stats);
     (outcome, tr)
